@@ -9,6 +9,10 @@ Dom == [ closer |-> {"client", "server", "client-then-server", "server-then-clie
          wseg   |-> {"1", "small", "1024", "1025", "64k"},
          rbuf   |-> {"1", "7", "1024", "4096", "64k"},
          pace   |-> {"prompt", "slow-reader"} ]        \* a peer that reads slowly keeps data queued in the bridge when closes arrive
+\* paces of the quiet stage (not sampled with the others: each costs its quiet period; the harness runs them side
+\* by side on one bridge): the reply after a half-close keeps flowing for longer than common time-outs / nothing
+\* happens for that long before the close.  Periods: 5.5 s in every run, 31 s and 62 s in the thorough tier.
+QuietPaces == {"long-reply", "idle-before-close"}
 VARIABLE x
 GInit == x = 0
 GNext == x' = x
